@@ -225,6 +225,13 @@ def step (d : DState) (line : String) : DState × String :=
       | .ok s' => ({ s := s' }, "ok")
       | .error e => (d, errStr e)
     | _, _ => (d, "bad-op")
+  | ["reapck", nn, vf, vok, iok] =>
+    match nn.toNat?, boolTok vf, boolTok vok, boolTok iok with
+    | some nn, some vf, some vok, some iok =>
+      match reapChecked alg d.s nn vf vok iok with
+      | .ok s' => ({ s := s' }, "ok")
+      | .error e => (d, errStr e)
+    | _, _, _, _ => (d, "bad-op")
   | ["reapcrash", nn, vf, cut] =>
     match nn.toNat?, boolTok vf, parseReapCut cut with
     | some nn, some vf, some cut => ({ s := reapCrash alg d.s nn vf cut }, "ok")
